@@ -263,6 +263,22 @@ def unroll_literal_loops(f, only_data_driven=False):
       p0 = literal_of(it.args[0])
       if p0 is not None:
         return ast.Tuple(elts=[ast.Tuple(elts=[ast.Constant(value=i), dataflow.clone(x)], ctx=ast.Load()) for i, x in enumerate(p0.elts)], ctx=ast.Load())
+    # itertools.combinations / permutations / product over literal tables: a finite, statically known sequence of tuples
+    fn_ = norm(it.func) if isinstance(it, ast.Call) else ''
+    if fn_ in ('itertools.combinations', 'combinations', 'itertools.permutations', 'permutations') and len(it.args) == 2 and not it.keywords \
+        and isinstance(it.args[1], ast.Constant) and isinstance(it.args[1].value, int) and 0 < it.args[1].value <= 3:
+      p0 = literal_of(it.args[0])
+      if p0 is not None and len(p0.elts) <= 8:
+        import itertools as _it
+        pick = _it.combinations if fn_.endswith('combinations') else _it.permutations
+        return ast.Tuple(elts=[ast.Tuple(elts=[dataflow.clone(x) for x in c_], ctx=ast.Load()) for c_ in pick(p0.elts, it.args[1].value)], ctx=ast.Load())
+    if fn_ in ('itertools.product', 'product') and it.args and not it.keywords:
+      parts = [literal_of(a) for a in it.args]
+      if all(p_ is not None for p_ in parts):
+        import itertools as _it
+        combos = list(_it.product(*[p_.elts for p_ in parts]))
+        if len(combos) <= 32:
+          return ast.Tuple(elts=[ast.Tuple(elts=[dataflow.clone(x) for x in c_], ctx=ast.Load()) for c_ in combos], ctx=ast.Load())
     return None
 
   def splat(e):
@@ -575,6 +591,33 @@ def constant_setattr(f):
       if nm == 'truth' and len(e.args) == 1:
         changed[0] = True
         return ast.Call(func=ast.Name(id='bool', ctx=ast.Load()), args=[expr(e.args[0])], keywords=[])
+    # X[X.isin(S)].tolist()  /  list(X[X.isin(S)])  is  [v for v in X if v in S]   (order of X, members of S)
+    def _isin_filter(x_):
+      if isinstance(x_, ast.Subscript) and isinstance(x_.slice, ast.Call) and isinstance(x_.slice.func, ast.Attribute) and x_.slice.func.attr == 'isin' \
+          and len(x_.slice.args) == 1 and not x_.slice.keywords and norm(x_.slice.func.value) == norm(x_.value):
+        return x_.value, x_.slice.args[0]
+      return None
+    hit_ = None
+    if isinstance(e, ast.Call) and isinstance(e.func, ast.Attribute) and e.func.attr in ('tolist', 'to_list') and not e.args and not e.keywords:
+      hit_ = _isin_filter(e.func.value)
+    elif isinstance(e, ast.Call) and isinstance(e.func, ast.Name) and e.func.id == 'list' and len(e.args) == 1 and not e.keywords:
+      hit_ = _isin_filter(e.args[0])
+    if hit_ is not None:
+      fresh_[0] += 1
+      v = '_v%d' % fresh_[0]
+      changed[0] = True
+      return ast.copy_location(ast.ListComp(elt=ast.Name(id=v, ctx=ast.Load()), generators=[ast.comprehension(
+          target=ast.Name(id=v, ctx=ast.Store()), iter=expr(hit_[0]), ifs=[ast.Compare(left=ast.Name(id=v, ctx=ast.Load()), ops=[ast.In()], comparators=[expr(hit_[1])])],
+          is_async=0)]), e)
+    # axis names of pandas/numpy calls: axis='columns' is axis=1, axis='index' / 'rows' is axis=0; X.to_list() is X.tolist()
+    if isinstance(e, ast.Call):
+      for k_ in e.keywords:
+        if k_.arg == 'axis' and isinstance(k_.value, ast.Constant) and k_.value.value in ('columns', 'index', 'rows'):
+          k_.value = ast.copy_location(ast.Constant(value=1 if k_.value.value == 'columns' else 0), k_.value)
+          changed[0] = True
+      if isinstance(e.func, ast.Attribute) and e.func.attr == 'to_list' and not e.args and not e.keywords:
+        e.func.attr = 'tolist'
+        changed[0] = True
     if isinstance(e, (ast.FunctionDef, ast.ClassDef)):
       return e
     return dataflow._map_children(e, expr) if isinstance(e, ast.AST) else e
@@ -721,6 +764,20 @@ def conditional_assignments(f):
         a = ast.Return(value=st.value.body, lineno=st.lineno, col_offset=st.col_offset)
         b = ast.Return(value=st.value.orelse, lineno=st.lineno, col_offset=st.col_offset)
         out.append(ast.If(test=st.value.test, body=block([a]), orelse=block([b]), lineno=st.lineno, col_offset=st.col_offset))
+        changed[0] = True
+        continue
+      if isinstance(st, ast.Expr) and isinstance(st.value, ast.IfExp):
+        # A() if c else B()  as a statement: only one of the two calls is executed
+        a = ast.Expr(value=st.value.body, lineno=st.lineno, col_offset=st.col_offset)
+        b = ast.Expr(value=st.value.orelse, lineno=st.lineno, col_offset=st.col_offset)
+        out.append(ast.If(test=st.value.test, body=block([a]), orelse=block([b]), lineno=st.lineno, col_offset=st.col_offset))
+        changed[0] = True
+        continue
+      if isinstance(st, ast.Expr) and isinstance(st.value, ast.BoolOp) and len(st.value.values) == 2 and isinstance(st.value.values[1], ast.Call):
+        # c and F()  /  c or F()  as a statement
+        t_ = st.value.values[0] if isinstance(st.value.op, ast.And) else ast.UnaryOp(op=ast.Not(), operand=st.value.values[0])
+        a = ast.Expr(value=st.value.values[1], lineno=st.lineno, col_offset=st.col_offset)
+        out.append(ast.If(test=ast.copy_location(t_, st.value), body=[a], orelse=[], lineno=st.lineno, col_offset=st.col_offset))
         changed[0] = True
         continue
       if isinstance(st, ast.Assign) and len(st.targets) == 1 and isinstance(st.value, ast.IfExp) \
